@@ -180,7 +180,11 @@ def proj_sync_pods(case, o):
 SY_L1 = " || sync: the same predicate re-checked on the calls the REAL pod control issues inside a whole sync (" + SY_RULE + ")"
 
 PROPS = {
-    "C02": {"module": "Asts.Props.C02", "claimed": False, "runs": [wo(proj=proj_world_all), sy(quick=4000, proj=proj_sync_all)], "rule": WORLD_RULE + " || " + SY_RULE},
+    "C02": {"module": "Asts.Props.C02",
+            "assumptions": ["PARTIAL: quiescence (a Final world is silent, stays Final for ever) and invariance of the premises under settle and under a round with ANY fault plan are proved for all worlds; convergence within muPods+3 rounds is proved for 'normal' worlds under both policies (valid spec with a partition present or OnDelete; every pod an owned canonically named member; newest listed revision records the template; no orphan revision listed) — theorems C02_rounds_parallel_partial / C02_rounds_ordered_partial. NOT proved: the normalising first rounds from an arbitrary world inside the premises (adoption of pods and revisions, creation / renumbering of the update revision; needs a hashing premise) and the legacy-boundary mode (RollingUpdate without a rollingUpdate block); both are covered by the world engine's monitors only",
+                            "the fairness premise is the executable `settle` (caches = API, terminating pods gone, every pod that can be is Running and Ready) between reconciles; arbitrary interleavings with lagging caches are not modelled",
+                            "premises (wfWorld): valid spec, not paused, not being deleted, well-formed slots, member pods canonically named, matching and not foreign-owned, no Failed/Succeeded pod outside the desired set under OrderedReady, no invisible revision on a probed name; findings of the proof: the eight-probe clause is not inductive (RevProbeFree is), a constant hash function defeats convergence (hashing premise needed)"], "runs": [wo(proj=proj_world_all), sy(quick=4000, proj=proj_sync_all), rc(quick=15000, thorough=150000, proj=lambda c, o: (creates(o), o.get("tplbad")))],
+            "rule": WORLD_RULE + " || " + SY_RULE + " || " + RC_RULE},
     "C08": {"module": "Asts.Props.C08", "assumptions": ["headline C08_monitor_true_on_model: names are unique in the revision store (one API namespace; the monitor looks revisions up by name)", "fuel of the collision loop: nameOf template is injective on |store|+1 consecutive collision counts (otherwise the Go loop could spin; stated as fuel_never_exhausted)"], "runs": [sy(proj=proj_sync_revs)], "rule": SY_RULE},
     "C09": {"module": "Asts.Props.C09", "assumptions": ["headline C09_reported: object names contain no colon (Kubernetes names never do) and the fault plan injects nothing into pod-control calls; faults on pod-control calls are covered by reconcile_hit_err / reconcile_err_iff_last_hit at the Faults level, by reported_any_plan for every other call, and by the engines (the model translates only first-occurrence pod faults)", "recovery (same final state once calls stop failing) is C02 from the state left behind: the world engine applies error faults and crashes to round 1 and monitors C09.recovers"], "runs": [sy(proj=proj_sync_all), wo(quick=1500, proj=proj_world_final)], "rule": SY_RULE + " || " + WORLD_RULE},
     "C10": {"module": "Asts.Props.C10", "assumptions": ["C10_revs: names are unique in the revision store (one API namespace; the monitor looks a written revision up by name)", "C10_pods: pod names are unique; the ordinal recorded for a pod is the one its name shows; every pod the set may claim (member, matching, not controlled by another owner) has its canonical name S-<ordinal> -- without it the identity fix of a zero-padded claimed pod (web-03) addresses its Update to web-3, which may be another owner's pod (upstream quirk, example exQuirk in Props/C10.lean; the run-time monitor carries the same precondition)", "'objects read from caches are left unmodified' is Go aliasing: monitored by the engine (C10.cache: deep comparison of every cached object before / after each sync), not proved"], "runs": [sy(proj=proj_sync_owner)], "rule": SY_RULE},
